@@ -158,7 +158,13 @@ func (ww *WW) StepMint() {
 	})
 	if err != nil {
 		if ww.Strict {
-			ww.W.Book.Violate("C17.honest_failed", "mint", "wallet mint of %d sat failed against an honest mint: %v", amount, err)
+			fp := "mint"
+			// refused because the wallet re-submitted an output the mint had signed before: name
+			// the operation that got it signed without advancing the wallet's counter (the cause)
+			if origin := ww.resubmittedOrigin(w); origin != "" {
+				fp = "mint|already-signed|first-signed-during:" + origin
+			}
+			ww.W.Book.Violate("C17.honest_failed", fp, "wallet mint of %d sat failed against an honest mint: %v", amount, err)
 		}
 		return
 	}
@@ -845,6 +851,31 @@ func (ww *WW) opAt(seq int) string {
 		kind = m.Kind
 	}
 	return kind
+}
+
+// resubmittedOrigin: if the last request of wallet w that the mint refused carried an output the mint
+// had already signed, the operation during which that output was signed; "" otherwise.
+func (ww *WW) resubmittedOrigin(w string) string {
+	obs := ww.W.Net.Obs
+	for i := len(obs) - 1; i >= 0 && i >= len(obs)-12; i-- {
+		o := obs[i]
+		if o.From != w || o.Method != "POST" || o.Status == 200 {
+			continue
+		}
+		var req struct {
+			Outputs []JOutput `json:"outputs"`
+		}
+		if json.Unmarshal(o.Req, &req) != nil {
+			continue
+		}
+		mb := ww.W.Book.Mint(o.Mint)
+		for _, out := range req.Outputs {
+			if sg := mb.Sigs[out.B_]; sg != nil && sg.Seq < o.Seq {
+				return ww.opAt(sg.Seq)
+			}
+		}
+	}
+	return ""
 }
 
 // signedDuring: for a deterministic output of wallet w (by secret or B_), the operation during
